@@ -210,11 +210,11 @@ func c37Run(r *simkit.Run) {
 
 func init() {
 	simkit.Register(&simkit.Harness{
-		ID:   "C37",
-		Run:  c37Run,
-		Real: []string{"quicmemberlist.membersPool (Set, Remove, Get, Exists, MembersLen, Len, Traverse, per-node lists)", "util.ShardedMap"},
-		Stub: []string{"verif-tagged exported wrapper around the unexported pool (scratch copy only)", "memberlist gossip itself is not run"},
-		Rule: "each run draws 1-3 nodes with 1-3 addresses each and a history of joins, re-joins and leaves: sequentially (the whole table is compared with a presence model after every step) or by 2-3 concurrent clients working on disjoint addresses of possibly the same node (compared at quiescence). distinct = event-log hash",
+		ID:          "C37",
+		Run:         c37Run,
+		Real:        []string{"quicmemberlist.membersPool (Set, Remove, Get, Exists, MembersLen, Len, Traverse, per-node lists)", "util.ShardedMap"},
+		Stub:        []string{"verif-tagged exported wrapper around the unexported pool (scratch copy only)", "memberlist gossip itself is not run"},
+		Rule:        "each run draws 1-3 nodes with 1-3 addresses each and a history of joins, re-joins and leaves: sequentially (the whole table is compared with a presence model after every step) or by 2-3 concurrent clients working on disjoint addresses of possibly the same node (compared at quiescence). distinct = event-log hash",
 		Assumptions: []string{"concurrent clients use disjoint addresses so that the expected table does not depend on the interleaving"},
 	})
 }
